@@ -5,6 +5,13 @@
 /// Length of the vector the stubbed base64 decoder returns (a concrete harness parameter).
 #[cfg(kani)]
 pub static mut B64_STUB_LEN: usize = 0x5eed_b64a_0000_0001; // distinctive: see note in verif_models.rs on zero-initialised statics
+/// First byte of the returned vector: 0x100 = arbitrary, otherwise that byte (harnesses that
+/// study one prefix branch at a time).
+#[cfg(kani)]
+pub static mut B64_STUB_PREFIX: u64 = 0x5eed_b64a_0000_0100;
+/// 1 = the stub may also answer Err (default), 0 = it always decodes
+#[cfg(kani)]
+pub static mut B64_STUB_MAY_FAIL: u64 = 0x5eed_b64a_0000_0001;
 /// What the decoder was handed (for assertions about the '=' stripping step).
 #[cfg(kani)]
 pub static mut B64_STUB_SAW_EQ: u64 = 0x5eed_b64a_0000_0002; // 0 / 1 once set
@@ -29,14 +36,20 @@ pub fn base64_decode(text: &str) -> Result<Vec<u8>, base64::DecodeError> {
         }
         B64_STUB_SAW_EQ = saw as u64;
     }
-    if kani::any() {
+    if unsafe { B64_STUB_MAY_FAIL } != 0 && kani::any() {
         return Err(base64::DecodeError::InvalidLength(0));
     }
     let n = unsafe { B64_STUB_LEN };
+    let pfx = unsafe { B64_STUB_PREFIX };
     let mut v = Vec::with_capacity(n);
     let mut i = 0;
     while i < n {
-        v.push(kani::any::<u8>());
+        let b = kani::any::<u8>();
+        if i == 0 && pfx < 0x100 {
+            v.push(pfx as u8);
+        } else {
+            v.push(b);
+        }
         i += 1;
     }
     Ok(v)
